@@ -5,9 +5,13 @@
 (*               contains a whole weekend and a month end (anchors: 2000-01-31, a Monday, and  *)
 (*               2000-04-30, a Sunday),                                                        *)
 (*   weekend   \in {Sat-Sun, Fri-Sat, Sun, none},  adj \in {f, p, m},                          *)
-(*   range     = the window +- Margin days (Margin 21: every n \in -NMax..NMax stays inside;    *)
-(*               Margin 2: the edges of the claimed domain are exercised),                     *)
-(*   t         = every day of the window +- TPad days.                                         *)
+(*   range     = the window widened by a margin <<before, after>> (<<21, 21>>: every n \in       *)
+(*               -NMax..NMax stays inside; <<2, 2>>: the edges of the claimed domain are        *)
+(*               exercised; <<0, 0>>: the FIRST and the LAST day of the range can be holidays;  *)
+(*               <<3, 4>>, <<4, 0>>, <<0, 3>>: the range begins / ends on a weekend day),       *)
+(*   t         = every day of the window +- TPad days that lies in the range.                  *)
+(* The quick configurations take a seeded 1-in-MCMod sample of the configurations of every      *)
+(* family (more families, fewer members of each); the thorough ones are exhaustive.             *)
 (* Invariants (evaluated on the final state of each behaviour, so that the parallel workers    *)
 (* share them): the laws of the statement hold for the law level (the oracle is consistent),   *)
 (* and the mechanism of the code (guarded loops, table path, loop path) equals the law level   *)
@@ -15,7 +19,8 @@
 (* sample of the configurations, every in-domain query about (c, t) with its answer.           *)
 EXTENDS Calendar, TLC, Json, FiniteSetsExt, IOUtils
 CONSTANTS HW,          \* width of the holiday window: 7 or 10
-          Margins,     \* set of margins of the calendar's range around the window
+          Margins,     \* the margins <<before, after>> of the calendar's range around the window: numbers in MarginMenu
+          MCMod,       \* model checking: only configurations whose number is 0 modulo MCMod (1 = all)
           Anchors,     \* subset of {1, 2}
           NMax,        \* n ranges over -NMax..NMax
           GenMod,      \* generator: print only configurations whose number is 0 modulo GenMod
@@ -29,13 +34,17 @@ Before == IF HW = 7 THEN 4 ELSE 6
 WinLo(k) == MonthEnd(k) - Before
 WinHi(k) == WinLo(k) + HW - 1
 Weekends == {{5, 6}, {4, 5}, {6}, {}}
+MarginMenu == <<<<21, 21>>, <<2, 2>>, <<0, 0>>, <<3, 4>>, <<4, 0>>, <<0, 3>>>>
 \* (the extra field w0, the first day of the holiday window, only places t)
-Configs == UNION {{[hol |-> h, wk |-> w, adj |-> a, lo |-> WinLo(k) - m, hi |-> WinHi(k) + m, w0 |-> WinLo(k)] :
+Configs == UNION {{[hol |-> h, wk |-> w, adj |-> a, lo |-> WinLo(k) - MarginMenu[m][1], hi |-> WinHi(k) + MarginMenu[m][2], w0 |-> WinLo(k)] :
                        h \in SUBSET (WinLo(k)..WinHi(k)), w \in Weekends, a \in {"f", "p", "m"}, m \in Margins} : k \in Anchors}
+Seed == atoi(IOEnv.C05_SEED)
+CfgNoOf(x) == SumSet(x.hol) + 7 * Cardinality(x.wk) + (CASE x.adj = "f" -> 0 [] x.adj = "p" -> 1 [] x.adj = "m" -> 2) + x.lo + 3 * x.hi
+Sampled(x, mod) == (CfgNoOf(x) + Seed) % mod = 0
 Ns == (0 - NMax)..NMax
 Advs == {"", "f", "p", "m"}
 
-Init == /\ c \in Configs
+Init == /\ c \in {x \in Configs : Sampled(x, MCMod)}
         /\ t \in (c.w0 - TPad)..(c.w0 + HW - 1 + TPad)
         /\ InRange(c, t)
         /\ done = FALSE
@@ -44,18 +53,35 @@ Eval == done = FALSE /\ done' = TRUE /\ UNCHANGED <<c, t>>
 \* ---- the queries about day t (u ranges over a few days after t) ---------------------------
 Q(op, n, u, a) == [op |-> op, t |-> t, n |-> n, u |-> u, a |-> a]
 Us == {t, t + 1, t + 2, t + 4, t + 6}
-\* (the calendar's own convention c.adj already ranges over f, p, m; an explicit convention is
-\*  asked for on a few queries only, to cover the "adj or self.adj" defaulting)
-Queries == {Q("is_bday", 0, 0, ""), Q("is_holiday", 0, 0, "")}
-           \cup {Q("adjust", 0, 0, a) : a \in Advs}
-           \cup {Q("add", n, 0, "") : n \in Ns}
-           \cup {Q(op, n, 0, "") : op \in {"add_inv", "bdays_add"}, n \in Ns \cap {-8, -3, -2, -1, 0, 1, 2, 3, 8}}
-           \cup {Q("dt_bump", n, 0, "") : n \in Ns \cap {-3, -2, -1, 0, 1, 2, 3}}
-           \cup {Q("add", n, 0, a) : n \in {-2, -1, 1, 2}, a \in {"f", "p", "m"}}
-           \cup {Q("bump0", n, 0, "") : n \in {-1, 1}}
-           \cup {Q("add_twice", n, 0, "") : n \in {-1, 1}}
-           \cup {Q("bdays", 0, u, "") : u \in Us} \cup {Q("bdays", 0, t + 4, a) : a \in {"f", "p", "m"}}
-           \cup {Q(op, 0, u, "") : op \in {"drange", "clock_diff"}, u \in Us}
+\* drange also backwards and over degenerate ranges (t = u; t, u adjusting to one business day; u < t)
+UsD == Us \cup {t - 1, t - 2, t - 3}
+\* the calendar's own convention c.adj ranges over f, p, m; for the model checker a passed convention is asked for on
+\* a few queries of each operation that takes one (the mechanism treats "adj or self.adj" in one place)
+Expl == {"f", "p", "m"}
+Core == {Q("is_bday", 0, 0, ""), Q("is_holiday", 0, 0, "")}
+        \cup {Q("adjust", 0, 0, a) : a \in Advs}
+        \cup {Q("add", n, 0, "") : n \in Ns}
+        \cup {Q(op, n, 0, "") : op \in {"add_inv", "bdays_add"}, n \in Ns \cap {-8, -3, -2, -1, 0, 1, 2, 3, 8}}
+        \cup {Q("add_split", n, 0, "") : n \in Ns \cap {-3, -2, 2, 3}}
+        \cup {Q("dt_bump", n, 0, "") : n \in Ns \cap {-3, -2, -1, 0, 1, 2, 3}}
+        \cup {Q("bump0", n, 0, "") : n \in {-1, 1}}
+        \cup {Q("add_twice", n, 0, "") : n \in {-1, 1}}
+        \cup {Q("bdays", 0, u, "") : u \in Us}
+        \cup {Q("drange", 0, u, "") : u \in UsD}
+        \cup {Q("clock_diff", 0, u, "") : u \in Us}
+WithAdj(A) == {Q("add", n, 0, a) : n \in Ns \cap {-5, -3, -2, -1, 0, 1, 2, 3, 5}, a \in A}
+              \cup {Q("dt_bump", n, 0, a) : n \in {-2, -1, 1, 2}, a \in A}
+              \cup {Q(op, n, 0, a) : op \in {"add_inv", "bdays_add", "add_split"}, n \in {-3, -2, 2, 3}, a \in A}
+              \cup {Q("bump0", n, 0, a) : n \in {-1, 1}, a \in A}
+              \cup {Q("add_twice", n, 0, a) : n \in {-1, 1}, a \in A}
+              \cup {Q("bdays", 0, u, a) : u \in {t + 1, t + 4}, a \in A}
+QueriesMC == Core \cup {Q("add", n, 0, a) : n \in {-2, -1, 1, 2}, a \in Expl} \cup {Q("bdays", 0, t + 4, a) : a \in Expl}
+                  \cup {Q("dt_bump", 2, 0, "p"), Q("dt_bump", -1, 0, "f"), Q("bump0", 1, 0, "p"), Q("add_twice", 1, 0, "p"), Q("add_split", -3, 0, "f")}
+\* the generator asks every operation that takes a per-call convention with a passed one, on the loop path (|n| <= 1)
+\* and on the table path (|n| >= 2): two of the three conventions per day, rotating with the day, so that over the
+\* configurations (c.adj \in f, p, m) the passed convention agrees with and differs from the calendar's own
+Rot == <<{"f", "p"}, {"p", "m"}, {"m", "f"}>>[(t % 3) + 1]
+Queries == Core \cup WithAdj(Rot)
 InDom == {q \in Queries : InDomain(c, q)}
 
 \* ---- the laws of the statement, on the law level -------------------------------------------
@@ -76,16 +102,19 @@ AddLaw == ~done \/ \A n \in Ns :
     /\ AddCount(c, t, 0, a) = b
     /\ n > 0 => AddCount(c, t, n, a) = AddCount(c, AddCount(c, t, n - 1, a), 1, a)
     /\ n < 0 => AddCount(c, t, n, a) = AddCount(c, AddCount(c, t, n + 1, a), -1, a)
-DrangeLaw == ~done \/ \A u \in Us :
+DrangeLaw == ~done \/ \A u \in UsD :
     LET s == DrangeB(c, t, u)  x == Adjust(c, t, c.adj)  y == Adjust(c, u, c.adj) IN
     /\ \A i \in 1..(Len(s) - 1) : s[i] < s[i + 1]
     /\ \A i \in 1..Len(s) : IsBday(c, s[i])
-    /\ x <= y                                               \* adjust is monotone
-    /\ s[1] = x /\ s[Len(s)] = y /\ Len(s) = CountB(c, x, y) + 1
+    /\ \A d \in x..y : IsBday(c, d) => \E i \in 1..Len(s) : s[i] = d    \* exactly the business days between the adjusted endpoints
+    /\ t <= u => x <= y                                     \* adjust is monotone
+    /\ x <= y => s[1] = x /\ s[Len(s)] = y /\ Len(s) = CountB(c, x, y) + 1
+    /\ x > y => s = <<>>
+    /\ t = u => s = <<x>>                                   \* a single-day range lists the adjusted day
     /\ \A i \in 1..Len(s) : s[i] = AddCount(c, x, i - 1, c.adj)
 
 \* ---- the mechanism of the code equals the law level on the claimed domain ------------------
-MechanismIsLaw == ~done \/ LET tab == BTable(c) IN \A q \in InDom : Pinned(c, q) => MechAnswer(c, tab, q) \in AcceptedAnswers(c, q)
+MechanismIsLaw == ~done \/ LET tab == BTable(c) IN \A q \in QueriesMC : (InDomain(c, q) /\ Pinned(c, q)) => MechAnswer(c, tab, q) \in AcceptedAnswers(c, q)
 \* the two paths of add agree wherever both are defined: the table path asked for |n| <= 1 and the
 \* loop path composed for |n| = 2
 PathsAgree == ~done \/ LET tab == BTable(c)  a == c.adj IN
@@ -103,11 +132,9 @@ Straddles == \A k \in Anchors : /\ \E d \in WinLo(k)..(WinHi(k) - 1) : ~SameMont
                                 /\ {Weekday(d) : d \in WinLo(k)..WinHi(k)} = 0..6
 
 \* ---- S2C generator: every in-domain pinned query about (c, t) with the expected answer -------
-CfgNo == SumSet(c.hol) + 7 * Cardinality(c.wk) + (CASE c.adj = "f" -> 0 [] c.adj = "p" -> 1 [] c.adj = "m" -> 2) + c.lo
 \* (a seeded 1-in-GenMod sample of the configurations; each case is <<op, n, u, a, accepted answers>>)
-Seed == atoi(IOEnv.C05_SEED)
 Emit == [cfg |-> [hol |-> SetToSortSeq(c.hol, <), wk |-> SetToSortSeq(c.wk, <), adj |-> c.adj, lo |-> c.lo, hi |-> c.hi],
          t |-> t,
          cases |-> SetToSeq({<<q.op, q.n, q.u, q.a, SetToSeq(AcceptedAnswers(c, q))>> : q \in {x \in InDom : Pinned(c, x)}})]
-EvalGen == Eval /\ ((CfgNo + Seed) % GenMod = 0 => PrintT(ToJson(Emit)))
+EvalGen == Eval /\ (Sampled(c, GenMod) => PrintT(ToJson(Emit)))
 =============================================================================
